@@ -411,6 +411,42 @@ class Ctx:
                     return self.record(rid, "R2", key, d, "hold", [fn_loc(f) + " " + render(e)[:160]])
         return self.record(rid, "R2", key, d, "violation", [fn_loc(f)], ["return value is %s" % render(e)[:200]], key_detail="value")
 
+    def r2_ret(self, rid, fn, must=(), must_not=(), desc=None):
+        """The function's return value derives from all atoms in `must` and none in `must_not`."""
+        d = desc or "%s: return value derives from %s" % (short(fn, 2), list(must))
+        key = self.getfn(fn)
+        if key is None:
+            return self.lost(rid, "R2", fn, d, "function not found: " + fn)
+        f = self.F.fns[key]
+        e = Exprs(f).local(0, 0, ())
+        a = atoms(e)
+        if _has(a, must) and not any(_has(a, [m]) for m in must_not):
+            self.stats["guards"] += 1
+            return self.record(rid, "R2", key, d, "hold", [fn_loc(f) + " " + render(e)[:160]])
+        return self.record(rid, "R2", key, d, "violation", [fn_loc(f)], ["return value is %s" % render(e)[:300]], key_detail="ret")
+
+    def const_eq(self, rid, key, value, desc=None):
+        c = self.F.consts.get(key)
+        d = desc or "constant %s == %s" % (key, value)
+        if c is None:
+            return self.lost(rid, "R7", None, d, "constant not found: " + key)
+        if str(c["v"]) == str(value):
+            return self.record(rid, "R7", None, d, "hold", [key + " = " + c["v"]])
+        return self.record(rid, "R7", None, d, "violation", [key], ["%s is %s, expected %s" % (key, c["v"], value)], key_detail="const:" + key)
+
+    def true_edges(self, fn, cond):
+        """Edges taken when the (bool) condition matching regex `cond` is true."""
+        key = self.getfn(fn)
+        if key is None:
+            return []
+        return [(bi, t_true) for (bi, t_true, t_false, txt) in self.find_guard(key, (), cond=cond)]
+
+    def false_edges(self, fn, cond):
+        key = self.getfn(fn)
+        if key is None:
+            return []
+        return [(bi, t_false) for (bi, t_true, t_false, txt) in self.find_guard(key, (), cond=cond)]
+
     def r2_arg(self, rid, fn, callee, index, must=(), must_not=(), const=None, desc=None, floor=1, where=None):
         """Every call of `callee` in fn passes an argument #index whose atoms ⊇ must, ∩ must_not = ∅, or equal to const."""
         F = self.F
